@@ -120,9 +120,17 @@ inductive Reachable (g : GeneRef) : CanonMemo → Prop
   | query (σ : CanonMemo) (introns : List Iv) (st : Strand) :
       Reachable g σ → Reachable g (checkSites g introns st σ).2
 
-/-- the answer the statement demands: every intron is canonical on the strand -/
-def pureAnswer (g : GeneRef) (introns : List Iv) (st : Strand) : Bool :=
-  introns.all fun it => canonCompute g it st
+/-- the answer the statement demands: every intron is canonical on the strand; for a record of unknown strand (`.`;
+    DESIGN §6): the whole intron chain is canonical on `+`, or the whole chain is canonical on `-` -/
+def pureAnswer (g : GeneRef) (introns : List Iv) (st : Strand) : Bool := pureAll g introns st
+
+theorem pureAnswer_stranded (g : GeneRef) (introns : List Iv) (st : Strand) (hst : st ≠ .dot) :
+    pureAnswer g introns st = introns.all fun it => canonCompute g it st := by
+  simp [pureAnswer, pureAll, hst]
+
+theorem pureAnswer_dot (g : GeneRef) (introns : List Iv) :
+    pureAnswer g introns .dot = (pureAnswer g introns .plus || pureAnswer g introns .minus) := by
+  simp [pureAnswer, pureAll]
 
 /-- invariant: every reachable memo stores only values of the pure function -/
 theorem memo_invariant {g : GeneRef} {σ : CanonMemo} (h : Reachable g σ) : MemoOK g σ := by
@@ -138,12 +146,23 @@ theorem canonical_pure {g : GeneRef} {σ : CanonMemo} (h : Reachable g σ) (intr
 
 /-- the same with the declarative right-hand side: True exactly when every intron has a canonical pair on the strand -/
 theorem canonical_pure_declarative {g : GeneRef} {σ : CanonMemo} (h : Reachable g σ) (introns : List Iv) (st : Strand)
-    (hin : ∀ it ∈ introns, g.start ≤ it.1 ∧ g.start < it.2) :
+    (hst : st ≠ .dot) (hin : ∀ it ∈ introns, g.start ≤ it.1 ∧ g.start < it.2) :
     (checkSites g introns st σ).1 = true ↔ ∀ it ∈ introns, CanonicalOn g it st := by
-  rw [canonical_pure h, pureAnswer, List.all_eq_true]
+  rw [canonical_pure h, pureAnswer_stranded g introns st hst, List.all_eq_true]
   constructor
   · intro hh it hit; exact (canonCompute_iff g it st (hin it hit).1 (hin it hit).2).mp (hh it hit)
   · intro hh it hit; exact (canonCompute_iff g it st (hin it hit).1 (hin it hit).2).mpr (hh it hit)
+
+/-- the unknown strand (`.`), declaratively: True exactly when every intron has a canonical pair on `+`, or every intron
+    has a canonical pair on `-` (one strand for the whole chain) -/
+theorem canonical_pure_declarative_dot {g : GeneRef} {σ : CanonMemo} (h : Reachable g σ) (introns : List Iv)
+    (hin : ∀ it ∈ introns, g.start ≤ it.1 ∧ g.start < it.2) :
+    (checkSites g introns .dot σ).1 = true ↔
+      (∀ it ∈ introns, CanonicalOn g it .plus) ∨ (∀ it ∈ introns, CanonicalOn g it .minus) := by
+  have hp := canonical_pure_declarative (Reachable.fresh (g := g)) introns .plus (by decide) hin
+  have hm := canonical_pure_declarative (Reachable.fresh (g := g)) introns .minus (by decide) hin
+  rw [canonical_pure Reachable.fresh] at hp hm
+  rw [canonical_pure h, pureAnswer_dot, Bool.or_eq_true, hp, hm]
 
 theorem runQueries_spec (g : GeneRef) :
     ∀ (qs : List (List Iv × Strand)) (σ : CanonMemo), Reachable g σ →
@@ -201,6 +220,20 @@ theorem negative_index_wrap_witness :
   rintro ⟨a, b, c, d, ha, _⟩
   simp [baseAt] at ha
 
+/-- before the repair of the unknown strand (`_witness`; audit C11-G3): `.` was looked up as `-`, so the GT-AG intron of
+    the witness sequence answered False for `.` while its mirror image (the CT-AC intron (5,14) of the reverse complement
+    `AAAACTGGGGGGACTTTT`) answered True; the repaired function answers True for both (and False for a chain that is
+    canonical on neither strand, or on `+` for one intron and on `-` for the other) -/
+theorem dot_flag_orig_witness :
+    (checkSitesOrig ⟨witnessSeq, 1⟩ [(5, 14)] .dot []).1 = false ∧
+    (checkSitesOrig ⟨"AAAACTGGGGGGACTTTT".toList, 1⟩ [(5, 14)] .dot []).1 = true ∧
+    (checkSites ⟨witnessSeq, 1⟩ [(5, 14)] .dot []).1 = true ∧
+    (checkSites ⟨"AAAACTGGGGGGACTTTT".toList, 1⟩ [(5, 14)] .dot []).1 = true ∧
+    (checkSites ⟨"AAAAGTCCAGAACTCCACTT".toList, 1⟩ [(5, 10), (13, 18)] .dot []).1 = false ∧
+    (checkSites ⟨"AAAAGTCCAGAACTCCACTT".toList, 1⟩ [(5, 10)] .dot []).1 = true ∧
+    (checkSites ⟨"AAAAGTCCAGAACTCCACTT".toList, 1⟩ [(13, 18)] .dot []).1 = true := by
+  decide
+
 /-! ### transcript models and read lines -/
 
 /-- the flag the statement demands for a record with exon blocks `exons` on strand `st` -/
@@ -230,14 +263,14 @@ theorem model_flag_pure {g : GeneRef} {σ : CanonMemo} (h : Reachable g σ) (m :
 /-- the statement's clause for transcript models, declaratively: the attribute is `True` exactly when the model is
     spliced and every intron has a canonical pair on the model's strand; `Unspliced` exactly when it has no intron -/
 theorem model_flag_declarative {g : GeneRef} {σ : CanonMemo} (h : Reachable g σ) (m : TModel)
-    (href : g.refRegion ≠ []) (hattr : m.canonicalAttr = none)
+    (href : g.refRegion ≠ []) (hattr : m.canonicalAttr = none) (hst : m.strand ≠ .dot)
     (hin : ∀ it ∈ junctionsFromBlocks m.exons, g.start ≤ it.1 ∧ g.start < it.2) :
     ((addCanonicalInfoForModel g m σ).1.canonicalAttr = some "True" ↔
       junctionsFromBlocks m.exons ≠ [] ∧ ∀ it ∈ junctionsFromBlocks m.exons, CanonicalOn g it m.strand) ∧
     ((addCanonicalInfoForModel g m σ).1.canonicalAttr = some "Unspliced" ↔ junctionsFromBlocks m.exons = []) := by
   rw [(model_flag_pure h m href hattr).1]
   unfold pureFlag
-  have hdecl := canonical_pure_declarative h (junctionsFromBlocks m.exons) m.strand hin
+  have hdecl := canonical_pure_declarative h (junctionsFromBlocks m.exons) m.strand hst hin
   rw [canonical_pure h] at hdecl
   by_cases hj : junctionsFromBlocks m.exons = []
   · simp [hj]
@@ -348,18 +381,22 @@ theorem flag_independent_of_region (chr : Seq) (start end_ : Int) (introns : Lis
     pureAnswer (setReferenceSequence chr start end_).1 introns st = pureAnswer ⟨chr, 1⟩ introns st ∧
     (setReferenceSequence chr start end_).2 = [] := by
   refine ⟨?_, rfl⟩
-  have key : ∀ it ∈ introns,
-      canonCompute (setReferenceSequence chr start end_).1 it st = canonCompute ⟨chr, 1⟩ it st := by
-    intro it hit
-    obtain ⟨h1, h2, h3, h4⟩ := hin it hit
-    have := region_slice_invariant chr start end_ it hs h1 h2 h3 h4
-    simp only [canonCompute]
-    rw [show (setReferenceSequence chr start end_).1.start = start from by simp [setReferenceSequence]; omega, this]
-  unfold pureAnswer
-  rw [Bool.eq_iff_iff, List.all_eq_true, List.all_eq_true]
-  constructor
-  · intro h it hit; rw [← key it hit]; exact h it hit
-  · intro h it hit; rw [key it hit]; exact h it hit
+  have hall : ∀ st' : Strand, (introns.all fun it => canonCompute (setReferenceSequence chr start end_).1 it st') =
+      (introns.all fun it => canonCompute ⟨chr, 1⟩ it st') := by
+    intro st'
+    have key' : ∀ it ∈ introns,
+        canonCompute (setReferenceSequence chr start end_).1 it st' = canonCompute ⟨chr, 1⟩ it st' := by
+      intro it hit
+      obtain ⟨h1, h2, h3, h4⟩ := hin it hit
+      have := region_slice_invariant chr start end_ it hs h1 h2 h3 h4
+      simp only [canonCompute]
+      rw [show (setReferenceSequence chr start end_).1.start = start from by simp [setReferenceSequence]; omega, this]
+    rw [Bool.eq_iff_iff, List.all_eq_true, List.all_eq_true]
+    constructor
+    · intro h it hit; rw [← key' it hit]; exact h it hit
+    · intro h it hit; rw [key' it hit]; exact h it hit
+  unfold pureAnswer pureAll
+  simp only [hall]
 
 /-! ### non-vacuity -/
 
